@@ -212,6 +212,18 @@ func (z *zone) setA(host string, ips ...string) {
 	z.setDNS(fq, "A", dnsAns{rrs: rrs})
 }
 
+func (z *zone) setAAAA(host string, ips ...string) {
+	fq := dns.Fqdn(host)
+	var rrs []dns.RR
+	for _, ip := range ips {
+		rrs = append(rrs, &dns.AAAA{
+			Hdr:  dns.RR_Header{Name: fq, Rrtype: dns.TypeAAAA, Class: dns.ClassINET, Ttl: 60},
+			AAAA: net.ParseIP(ip).To16(),
+		})
+	}
+	z.setDNS(fq, "AAAA", dnsAns{rrs: rrs})
+}
+
 // installStubs replaces http.DefaultTransport and net.DefaultResolver for the whole process.
 func installStubs() {
 	stubOnce.Do(func() {
@@ -278,7 +290,11 @@ func newTLSSrv(ip string, onReq func(sni, host string) bool) (*tlsSrv, error) {
 }
 
 func newTLSSrvOn(ip string, port int, onReq func(sni, host string) bool) (*tlsSrv, error) {
-	ln, err := net.Listen("tcp4", net.JoinHostPort(ip, strconv.Itoa(port)))
+	network := "tcp4"
+	if strings.Contains(ip, ":") {
+		network = "tcp6"
+	}
+	ln, err := net.Listen(network, net.JoinHostPort(ip, strconv.Itoa(port)))
 	if err != nil {
 		return nil, err
 	}
